@@ -303,9 +303,25 @@ def _worker(check, cfg, base_seed, k, jobs, n_runs, t_end, out_fn, wall_cap):
 
 
 def scratch_root():
+    """Per-invocation scratch directory (removed when the check ends), never
+    under /repo, /verif or /tmp."""
     d = os.environ.get('VERIF_SCRATCH', '/var/tmp/stbem-verif')
+    sub = os.environ.get('VERIF_SCRATCH_SUB')
+    if sub is None:
+        sub = 'p{}'.format(os.getpid())
+        os.environ['VERIF_SCRATCH_SUB'] = sub
+    d = os.path.join(d, sub)
     os.makedirs(d, exist_ok=True)
     return d
+
+
+def scratch_cleanup():
+    import shutil
+    sub = os.environ.get('VERIF_SCRATCH_SUB')
+    if sub and sub == 'p{}'.format(os.getpid()):
+        shutil.rmtree(os.path.join(
+            os.environ.get('VERIF_SCRATCH', '/var/tmp/stbem-verif'), sub),
+            ignore_errors=True)
 
 
 def run_batch(check, cfg, base_seed, n_runs, jobs, budget_s, wall_cap=300):
@@ -547,6 +563,7 @@ def write_evidence(check, tier, seed, res, cfg, n_planned, extra, n_viol):
 
 # ------------------------------------------------------------- top level ----
 def run_check(check, tier, seed, jobs, budget_s, repo, n_runs=None):
+    scratch_root()
     cfg = dict(check.TIERS[tier])
     n_planned = n_runs if n_runs is not None else cfg['runs']
     if budget_s is None:
@@ -621,6 +638,7 @@ def run_check(check, tier, seed, jobs, budget_s, repo, n_runs=None):
             res['done'], n_planned))
     for ln in lines:
         print(ln)
+    scratch_cleanup()
     if exit_code == 0:
         if any(ln.startswith('KNOWN-FINDING') for ln in lines):
             print('OK property={}: nothing beyond the listed known findings'.
